@@ -362,7 +362,7 @@ func runPass(name string, g Gen, trackStates bool) *passResult {
 					if len(r.Chain) > 0 {
 						atomic.AddInt64(&res.derivs, int64(len(r.Chain)))
 					}
-					if trackStates {
+					if trackStates && why == "" {
 						si := 0
 						if r.Source {
 							si = 1
